@@ -214,8 +214,13 @@ func genC03(w *simrt.Choices, tier string, avoid map[string]bool) Case {
 		k.Txns = append(k.Txns, t)
 	}
 	if k.Mode == "B" {
-		if tier == "thorough" && w.Choose(3) == 0 {
+		if tier == "thorough" && w.Choose(12) == 0 {
+			// every byte offset of the dialogue: a couple of thousand connections; keep
+			// each of them cheap (no byte-wise segmentation) so that the run fits its budget
 			k.Cuts = []int{-1}
+			if k.Net.SegMode == 2 {
+				k.Net.SegMode = 1
+			}
 		} else {
 			for i, n := 0, 12+w.Choose(20); i < n; i++ {
 				k.Cuts = append(k.Cuts, w.Choose(1<<16))
@@ -741,6 +746,9 @@ func init() {
 		Gen:   genC03,
 		Run:   runC03,
 		Config: func(cs Case) simrt.Config {
+			if k := cs.(*c03Case); len(k.Cuts) == 1 && k.Cuts[0] == -1 {
+				return simrt.Config{NoJumps: true, MaxSteps: 12000000, MaxSimTime: 48 * time.Hour}
+			}
 			return simrt.Config{NoJumps: true, MaxSteps: 3000000, MaxSimTime: 12 * time.Hour}
 		},
 		BudgetIsViolation: true,
